@@ -111,8 +111,12 @@ def surface_normal_from_cylindrical_derivatives(fp, ft, r, t):
     """
     cost = np.cos(t)
     sint = np.sin(t)
-    x = fp * cost - 1/r * ft * sint
-    y = fp * sint + 1/r * ft * cost
+    # on the axis (r == 0) the azimuthal term ft/r is 0/0; it vanishes there for
+    # any surface that is smooth at its vertex
+    r_safe = np.where(r == 0, 1, r)
+    ftbyr = np.where(r == 0, 0, ft / r_safe)
+    x = fp * cost - ftbyr * sint
+    y = fp * sint + ftbyr * cost
     return x, y
 
 
